@@ -140,6 +140,14 @@ static int zones(const ZI* const* reg, int n, int i0, int i1, long grid, int nco
             if (z.isError()) { fail("zoned date-time of a supported instant is an error after a later year was served", t, i, v); continue; }
             if ((long) z.toEpochSeconds() != t) fail("ZonedDateTime round trip after a later year was served", t, i, z.toEpochSeconds());
           }
+          if (m == 6) {     // a stray query outside the zone data (an unset clock): it must be an error and leave no trace
+            ZonedDateTime zo = ZonedDateTime::forEpochSeconds((acetime_t) (y % 2 ? 1800000000L : -400000000L), tzs[v]);
+            if (!zo.isError()) fail("zoned date-time outside the zone data is not an error", y, i, v);
+            long tb = days_from_civil(y, 6, 15) * 86400L;
+            ZonedDateTime zv = ZonedDateTime::forEpochSeconds((acetime_t) tb, tzs[v]);
+            nops += 2;
+            if (zv.isError() || (long) zv.toEpochSeconds() != tb) fail("ZonedDateTime round trip after an out-of-range query", tb, i, v);
+          }
           if (m == 12 || m == 1) {     // back to the later year in between
             ZonedDateTime zb = ZonedDateTime::forEpochSeconds((acetime_t) mar, tzs[v]);
             if (zb.isError()) fail("zoned date-time is an error (descending history)", mar, i, v);
